@@ -141,7 +141,7 @@ fn check_budget<const N: usize>(
     }
     let tape = f.tape();
     let mut pe = VmPointEval::<N>::new();
-    let mut report = |st: &mut Stats, kind: &str, i: usize, o: usize, got: f32, want: f32| {
+    let report = |st: &mut Stats, kind: &str, i: usize, o: usize, got: f32, want: f32| {
         let (sig, loc) = localise::<N>(p, &inputs[i]);
         st.violation(
             case,
